@@ -1,6 +1,6 @@
 import ComposeVerif.Model.ShortParse
 import ComposeVerif.Model.Val
-import ComposeVerif.Model.Path
+import ComposeVerif.Model.PathK
 import ComposeVerif.Gen.Tables
 /-!
 # `transform.Canonical` and its transformers on the untyped tree (C03)
@@ -118,7 +118,7 @@ def dependsMap : Val.KVs → Out Val.KVs
 def dependsList : List Val → Val.KVs → Out Val.KVs
   | [], acc => .ok acc
   | .str k :: r, acc => dependsList r (Val.insert k (.map [("condition", .str "service_started"), ("required", .bool true)]) acc)
-  | _ :: _, _ => .panic "transform.transformDependsOn"
+  | _ :: _, _ => .err "type"
 
 def transformDependsOn : Val → Out Val
   | .map m => match dependsMap m with | .ok r => .ok (.map r) | .err e => .err e | .panic e => .panic e
@@ -138,7 +138,7 @@ def transformEnvFile : Val → Out Val
 def networksList : List Val → Val.KVs → Out Val.KVs
   | [], acc => .ok acc
   | .str k :: r, acc => networksList r (Val.insert k .null acc)
-  | _ :: _, _ => .panic "transform.transformServiceNetworks"
+  | _ :: _, _ => .err "type"
 
 def transformServiceNetworks : Val → Out Val
   | .seq l => match networksList l [] with | .ok r => .ok (.map r) | .err e => .err e | .panic e => .panic e
@@ -223,7 +223,7 @@ def leaf (h : Option String) (ign : Bool) (v : Val) : Out Val :=
     else if h = "transformMaybeExternal" then
       match v with
       | .null => .ok .null
-      | _ => .panic "transform.transformMaybeExternal"
+      | _ => .err "type"
     else if h = "transformFileMount" then transformFileMount v
     else if h = "transformKeyValue" then transformKeyValue ign v
     else if h = "transformDependsOn" then transformDependsOn v
@@ -258,7 +258,7 @@ def transform (ign : Bool) (p : TPath) : Val → Out Val
 def transformKVs (ign : Bool) (p : TPath) : Val.KVs → Out Val.KVs
   | [] => .ok []
   | (k, e) :: r =>
-    match transform ign (TPath.next p k) e with
+    match transform ign (TPath.nextK p k) e with
     | .ok t =>
       match transformKVs ign p r with
       | .ok r' => .ok ((k, t) :: r')
@@ -270,7 +270,7 @@ def transformKVs (ign : Bool) (p : TPath) : Val.KVs → Out Val.KVs
 def transformSeq (ign : Bool) (p : TPath) : List Val → Out (List Val)
   | [] => .ok []
   | e :: r =>
-    match transform ign (TPath.next p "[]") e with
+    match transform ign (TPath.nextK p "[]") e with
     | .ok t =>
       match transformSeq ign p r with
       | .ok r' => .ok (t :: r')
@@ -306,11 +306,11 @@ def fails (ign : Bool) (p : TPath) : Val → List String
   | .str s => outFails (leaf (TPath.firstMatch CV.Gen.transformers p) ign (.str s))
 def failsKVs (ign : Bool) (p : TPath) : Val.KVs → List String
   | [] => []
-  | (k, e) :: r => fails ign (TPath.next p k) e ++ failsKVs ign p r
+  | (k, e) :: r => fails ign (TPath.nextK p k) e ++ failsKVs ign p r
 /-- a sequence is walked in index order: only the first failing element can be reported -/
 def failsSeq (ign : Bool) (p : TPath) : List Val → List String
   | [] => []
-  | e :: r => match fails ign (TPath.next p "[]") e with
+  | e :: r => match fails ign (TPath.nextK p "[]") e with
     | [] => failsSeq ign p r
     | fs => fs
 end
